@@ -835,6 +835,53 @@ pub fn gen_picture(rng: &mut Rng, ty: Ty, lossless: bool) -> Option<GenPic> {
     Some(GenPic { text, toks })
 }
 
+/// Pictures people actually write (defaults of databases and drivers, log formats): a code path special-casing one
+/// of them must still treat it as the token sequence it is.
+pub const WELL_KNOWN: &[&str] = &[
+    "YYYY-MM-DD", "DD-MON-YYYY", "DD-MON-YY", "DD-MON-YYYY HH24:MI:SS", "YYYY-MM-DD HH24:MI:SS", "YYYY-MM-DD HH24:MI:SS.FF", "YYYY-MM-DD HH24:MI:SS.FF3", "YYYY-MM-DD HH24:MI:SS.FF6",
+    "YYYY-MM-DD HH24:MI:SS.FF9", "YYYY-MM-DDTHH24:MI:SS", "YYYY-MM-DDTHH24:MI:SS.FF3", "MM/DD/YYYY", "DD/MM/YYYY", "DD.MM.YYYY", "DD.MM.YYYY HH24:MI", "YYYY/MM/DD", "YYYYMMDD", "YYYYMMDDHH24MISS",
+    "HH24:MI:SS", "HH24:MI", "HH:MI:SS AM", "HH:MI AM", "HH12:MI:SS P.M.", "HH24:MI:SS.FF", "HH24:MI:SS.FF6", "MONTH DD, YYYY", "MON DD, YYYY", "DAY, DD MONTH YYYY", "DY, DD MON YYYY", "DY, DD MON YYYY HH24:MI:SS",
+    "DY MON DD HH24:MI:SS YYYY", "DD MON YYYY", "DD MONTH YYYY", "MON YYYY", "MONTH YYYY", "YYYY-MM", "YYYY DDD", "YYYY-DDD", "DD-MM-YYYY", "DD-MM-YY", "MM-DD-YYYY", "YY-MM-DD", "YYYY MM DD", "YYYY.MM.DD",
+    "DD HH24:MI:SS", "DD HH24:MI:SS.FF6", "DD HH24:MI:SS.FF", "YYYY-MM-DD HH:MI:SS AM", "MM/DD/YYYY HH:MI:SS AM", "DD-MON-YYYY HH:MI:SS.FF AM", "YYYY-MM-DD DAY", "DAY", "MONTH", "YYYY", "WW", "W", "D",
+];
+
+/// Re-spells a picture: every token in a random letter case (name tokens in one of the three styles or mixed), every
+/// blank run lengthened by 0..2. The reference tokenizer then says what the variant means.
+pub fn vary_picture(rng: &mut Rng, base: &str) -> String {
+    let toks = match tokenize(base.as_bytes()) {
+        Some(t) => t,
+        None => return base.to_string(),
+    };
+    let mut out = String::new();
+    for t in &toks {
+        match t {
+            Tok::Blank(n) => out.push_str(&" ".repeat(*n + if rng.chance(1, 3) { 1 + rng.below(2) as usize } else { 0 })),
+            Tok::T | Tok::Punct(_) => out.push_str(&tok_text(t)),
+            Tok::Mon(_) | Tok::Month(_) | Tok::Day(_) | Tok::Dy(_) => {
+                let base = tok_text(t);
+                out.push_str(&match rng.below(5) {
+                    0 => base.to_uppercase(),
+                    1 => base.to_lowercase(),
+                    2 => {
+                        let mut c = base.to_lowercase();
+                        c[..1].make_ascii_uppercase();
+                        c
+                    }
+                    3 => {
+                        // lower-case first letter, upper-case second
+                        let mut c = base.to_uppercase();
+                        c[..1].make_ascii_lowercase();
+                        c
+                    }
+                    _ => rcase(rng, &base),
+                });
+            }
+            _ => out.push_str(&rcase(rng, &tok_text(t))),
+        }
+    }
+    out
+}
+
 /// the fixed "canonical" pictures used besides the generated ones
 pub fn canonical_pictures(ty: Ty) -> &'static [&'static str] {
     match ty {
